@@ -80,10 +80,10 @@ RECURSIVE SpRun(_, _, _)
 SpRun(c, evs, i) == IF i > Len(evs) THEN c ELSE SpRun(SpStep(c, evs[i]), evs, i + 1)
 MarkedSpans(evs) == SpRun([stack |-> <<>>, anc |-> <<>>, root |-> <<>>, out |-> <<>>], evs, 1).out
 
-\* the printed form of an error shows the line and the 1-based column
+\* the printed form of an error shows the line and the 1-based column: among the numbers it contains (`words`: its maximal
+\* digit runs, in order) the line number occurs before the column number -- whatever the wording around them
 DisplayOK(words, at) ==
-  \E i \in 1..Len(words) : i + 3 <= Len(words) /\ words[i] = "line" /\ words[i + 1] = ToString(at[2])
-                           /\ words[i + 2] = "column" /\ words[i + 3] = ToString(at[3] + 1)
+  \E i, j \in 1..Len(words) : i < j /\ words[i] = ToString(at[2]) /\ words[j] = ToString(at[3] + 1)
 
 \* first reason a record is wrong, or "ok"
 RECURSIVE EvsVerdict(_, _, _, _)
